@@ -77,12 +77,12 @@ def dijkstra[S](
         iterations += 1
         closed.add(current)
 
+        if max_cost is not None and cost > max_cost:
+            continue
+
         if is_goal(current):
             path = reconstruct_path(parent, current)
             return Result(path, g[current], iterations, evaluations)
-
-        if max_cost is not None and cost > max_cost:
-            continue
 
         for neighbor, edge_cost in neighbors(current):
             if neighbor in closed:
